@@ -123,12 +123,12 @@ func cmdRemote(args []string) {
 	case *maxScen <= 0 || *maxScen >= len(all):
 		chosen = all
 	default:
-		// one schedule per fault kind first (seeded choice among those starting with that kind), the rest seeded
+		// one schedule per fault kind first (seeded choice among those ending with that kind while output is being copied), the rest seeded
 		used := map[string]bool{}
 		for _, kind := range []string{"cut", "relay", "remote"} {
 			var c []schedule
 			for _, s := range all {
-				if len(s.Faults) > 0 && s.Faults[len(s.Faults)-1].Kind == kind {
+				if len(s.Faults) > 0 && s.Faults[len(s.Faults)-1].Kind == kind && s.Faults[len(s.Faults)-1].When >= 1 {
 					c = append(c, s)
 				}
 			}
